@@ -876,8 +876,10 @@ macro_rules | `(tactic| tr_rule) => `(tactic| with_reducible apply lshiftLI_tr)
 theorem rshiftLI_tr {a1 a2 : LinComb} (ha : vEq a1 a2) (n : Int) :
     Tr (OptRel vEq) (rshiftLI a1 n) (rshiftLI a2 n) := by
   unfold rshiftLI
+  by_cases hn : n < 0
+  · simp only [hn, if_true]; exact Tr.err _
+  simp only [hn, if_false]
   refine Tr.bind (toBits_tr ha none) (fun b1 b2 hb => ?_)
-  rw [hb.length_eq]
   exact Tr.pure (fromBits_veq (hb.drop _))
 macro_rules | `(tactic| tr_rule) => `(tactic| with_reducible apply rshiftLI_tr)
 
